@@ -355,6 +355,16 @@ func bucketMain(args []string) error {
 					m[c] = struct{}{}
 				}
 				checker = m
+				if idx%5 == 2 {
+					// the same selection seen through two renaming layers (what PersistContext.WithFieldOverrides builds when a child and
+					// its parent strategy both rename): the writer names the field f, the innermost checker knows it as f
+					up, down := map[string]string{}, map[string]string{}
+					for f := range st.Vals {
+						up[f] = f + "~1"
+						down[f+"~1"] = f
+					}
+					checker = boltz.NewMappedFieldChecker(boltz.NewMappedFieldChecker(m, down), up)
+				}
 			}
 			var fields []string
 			for f := range st.Vals {
